@@ -210,3 +210,14 @@ def run(F, R, tier):
         g = guards_at(F, nones[0])
         ok = any(x.kind == "cond" and x.pol and "exclude_jsr_pkgs" in expr_text(x.node) and "exclude_jsr_pkg_prefixes" in expr_text(x.node) for x in g)
     R.ob("C06-f", "excluded packages get no date cutoff, all others the configured date", ok, "get_for_package shape changed", gp["file"])
+    exact = [n for n in gp["_nodes"] if n.get("k") == "MethodCall" and n["name"] == "contains" and peel(n["recv"]).get("field") == "exclude_jsr_pkgs"]
+    pre = [n for n in gp["_nodes"] if n.get("k") == "MethodCall" and n["name"] == "starts_with"]
+    pre_ok = bool(pre) and all(any(a_.get("k") == "MethodCall" and mentions_field(a_, "exclude_jsr_pkg_prefixes") and not mentions_field(a_, "exclude_jsr_pkgs") for a_ in k_ancestors(p_)) for p_ in pre)
+    R.ob("C06-f", "exact exclusions match the whole package name; only the prefix list is matched by prefix", len(exact) == 1 and pre_ok,
+         "the exact exclusion list is no longer tested with `contains(package_name)` (or is also matched by prefix): excluding `@scope/b` would also exempt `@scope/bar` from the date rule", gp["file"])
+    pb = F.body("graph::Builder::probe_cached_jsr_version_manifests")
+    for r_ in [n for n in pb["_nodes"] if n["k"] == "Ret" and not any(a_.get("k") == "Closure" for a_ in k_ancestors(n))]:
+        g = guards_at(F, r_)
+        ok = any(x.kind == "cond" and x.pol and x.node.get("k") == "MethodCall" and x.node["name"] == "is_empty" and tyc(F, x.node["recv"], "Vec<(deno_semver::Version") for x in g)
+        R.ob("C06-c", "the cached-manifest probe is skipped only when this requirement has no unprobed candidate", ok,
+             "probe_cached_jsr_version_manifests returns early on another condition: a second requirement on the same package would see only the first requirement's cached set", where(r_))
